@@ -118,7 +118,7 @@ var (
 	CTNames    = []string{"unquoted", "quoted", "folded", "missing", "upper", "compact"}
 	HdrNames   = []string{"plain", "display-name", "quoted-display-name", "group", "comment", "encoded-word", "folded"}
 	EOLNames   = []string{"CRLF", "LF", "mixed"}
-	PlaceNames = []string{"plain", "preamble+epilogue", "no-close-delimiter", "outer-boundary-prefix-of-inner", "inner-boundary-prefix-of-outer"}
+	PlaceNames = []string{"plain", "preamble+epilogue", "no-close-delimiter", "outer-boundary-prefix-of-inner", "inner-boundary-prefix-of-outer", "delimiters-quoted-mid-line"}
 	BodyNames  = []string{"terminated", "unterminated", "empty"}
 )
 
@@ -130,6 +130,7 @@ type builder struct {
 	buf    []byte
 	v      Variant
 	lineNo int
+	encl   []string // boundaries of the enclosing multiparts
 }
 
 func (b *builder) eol() {
@@ -307,6 +308,7 @@ func (b *builder) entity(n *Node, asMessage bool) {
 		if b.v.Place == 1 {
 			b.line("This is the preamble of " + n.Boundary + ".")
 		}
+		b.encl = append(b.encl, n.Boundary)
 		for i, k := range n.Kids {
 			if i > 0 {
 				b.eol() // the line break that belongs to the delimiter
@@ -315,6 +317,7 @@ func (b *builder) entity(n *Node, asMessage bool) {
 			b.eol()
 			b.entity(k, false)
 		}
+		b.encl = b.encl[:len(b.encl)-1]
 		if closed {
 			b.eol()
 			b.str("--" + n.Boundary + "--")
@@ -342,6 +345,12 @@ func (b *builder) leafBody(n *Node) {
 		l1, l2 = "<html><body>part "+n.Path, "</body></html>"
 	default:
 		l1, l2 = "AAECAwQFBgcICQoLDA0ODxAREhMUFRYXGBkaGxwdHh8g", "ISIjJCUm"+strings.Repeat("QUJD", len(n.Path))
+	}
+	if b.v.Place == 5 && n.Kind != 'b' {
+		// the enclosing delimiters quoted in the middle of a line are not delimiters
+		for _, e := range b.encl {
+			l1 += " x--" + e + " x--" + e + "--"
+		}
 	}
 	b.str(l1)
 	b.eol()
